@@ -1172,14 +1172,21 @@ func init() {
 				if v.sort.K == KBV {
 					return mkCmp(OUlt, v, mkBV(256, v.sort.W))
 				}
+				if v.sort.K == KInt {
+					return mkAnd(mkICmp(OILe, mkInt64(0), v), mkICmp(OILt, v, mkInt64(256)))
+				}
 			}
 			return mkBool(i.box == 0)
 		}
 		same := tFalse
 		switch xv := x.v.(type) {
 		case int64, *Term:
-			if w, _, ok := intInfo(x.t); ok {
-				same = mkEq(toBV(x.v, w), toBV(y.v, w))
+			if w, sg, ok := intInfo(x.t); ok {
+				if isIntTerm(x.v) || isIntTerm(y.v) {
+					same = mkEq(toIntTerm(x.v, w, sg), toIntTerm(y.v, w, sg))
+				} else {
+					same = mkEq(toBV(x.v, w), toBV(y.v, w))
+				}
 			} else if xb, isB := xv.(*Term); isB && xb.sort.K == KBool {
 				same = mkEq(xb, toBoolTerm(y.v))
 			}
